@@ -235,6 +235,21 @@ type flowTarget struct {
 var flowTargets = []flowTarget{
 	{"event_bus.go", "", "PublishContext", "publishFlow", ""},
 	{"event_bus.go", "", "callHandlerWithContext", "handlerFlow", ""},
+	{"event_bus.go", "", "Subscribe", "subscribeFlow", ""},
+	{"event_bus.go", "", "SubscribeContext", "subscribeCtxFlow", ""},
+	{"event_bus.go", "", "Unsubscribe", "unsubscribeFlow", ""},
+	{"event_bus.go", "", "Clear", "clearFlow", ""},
+	{"event_bus.go", "", "ClearAll", "clearAllFlow", ""},
+	{"event_bus.go", "inflight", "wait", "inflightWaitFlow", ""},
+	{"event_bus.go", "inflight", "done", "inflightDoneFlow", ""},
+	{"event_bus.go", "internalHandler", "awaitTurn", "awaitTurnFlow", ""},
+	{"event_bus.go", "internalHandler", "releaseTurn", "releaseTurnFlow", ""},
+	{"persist.go", "MemoryStore", "Append", "memAppendFlow", ""},
+	{"persist.go", "MemoryStore", "Read", "memReadFlow", ""},
+	{"persist.go", "MemoryStore", "SaveOffset", "memSaveFlow", ""},
+	{"persist.go", "MemoryStore", "LoadOffset", "memLoadFlow", ""},
+	{"stores/sqlite/store.go", "SQLiteStore", "Read", "sqlReadFlow", ""},
+	{"stores/durablestream/store.go", "Store", "Append", "dsAppendFlow", ""},
 	{"event_bus.go", "EventBus", "Shutdown", "shutdownFlow", ""},
 	{"persist.go", "EventBus", "persistEvent", "persistFlow", ""},
 	{"persist.go", "EventBus", "Replay", "replayFlow", ""},
@@ -335,6 +350,16 @@ var flowVocab = [][2]string{
 	{"clearColl", "call:c.clear"}, {"rangeCollections", "range:m.collections{"}, {"onReset", "call:m.cfg.onReset"}, {"onSnapshot", "call:m.cfg.onSnapshot"},
 	{"storeSet", "call:a.collection.store.Set"}, {"storeDelete", "call:a.collection.store.Delete"}, {"compositeKey", "call:CompositeKey"},
 	{"ifStrict", "if:m.cfg.strictSchema{"}, {"ifUnknownType", "if:!ok{"},
+	// registry calls, condition variables, memory store
+	{"deferShardUnlock", "defer:shard.mu.Unlock"}, {"rangeHandlers", "range:handlers{"}, {"ifSamePtr", "if:reflect.ValueOf(h.handler).Pointer() == handlerPtr{"},
+	{"rangeOpts", "range:opts{"}, {"ifNilOpt", "if:opt == nil{"}, {"callOpt", "call:opt"}, {"callAppend", "call:append"}, {"callDelete", "call:delete"},
+	{"shardsLock", "call:bus.shards[].mu.Lock"}, {"shardsUnlock", "call:bus.shards[].mu.Unlock"}, {"setShardsHandlers", "set:bus.shards[].handlers"},
+	{"inflightCondWait", "call:c.cond.Wait"}, {"inflightBroadcast", "call:c.cond.Broadcast"}, {"setInflightN", "set:c.n"}, {"ifInflightZero", "if:c.n == 0 && c.cond != nil{"},
+	{"turnCondWait", "call:h.seqCond.Wait"}, {"turnBroadcast", "call:h.seqCond.Broadcast"}, {"setServing", "set:h.seqServing"},
+	{"seqMuLock", "call:h.seqMu.Lock"}, {"seqMuUnlock", "call:h.seqMu.Unlock"},
+	{"memLock", "call:m.mu.Lock"}, {"memUnlockDeferred", "defer:m.mu.Unlock"}, {"memRLock", "call:m.mu.RLock"}, {"memRUnlockDeferred", "defer:m.mu.RUnlock"},
+	{"setNextOffset", "set:m.nextOffset"}, {"sprintf", "call:fmt.Sprintf"}, {"setMemEvents", "set:m.events"}, {"rangeMemEvents", "range:m.events{"},
+	{"ifAfterFrom", "if:from == OffsetOldest || event.Offset > from{"}, {"ifLimitReached", "if:limit > 0 && len(result) >= limit{"}, {"setSubscriptions", "set:m.subscriptions[]"},
 	// sqlite
 	{"sqlExec", "call:s.appendStmt.ExecContext"}, {"lastInsertId", "call:result.LastInsertId"}, {"toUTC", "call:event.Timestamp.UTC"},
 	{"rowsNext", "call:rows.Next"}, {"rowsErr", "call:rows.Err"}, {"yieldC", "call:yield"}, {"rowsScan", "call:rows.Scan"},
